@@ -13,7 +13,7 @@ from vf.ref import bencode
 
 ID = "C09"
 LEVEL = "exploration"
-TECHNIQUE = "Hypothesis-generated operation sequences (model-based: create/recheck/edit/magnet/rebuild interleaved with filesystem mutations) executed in one long-lived process without resets; after every step the observable is compared with the same step performed by a forked copy of a never-used interpreter (cross-validated against real fresh subprocesses)"
+TECHNIQUE = "Hypothesis-generated operation sequences (model-based: create/recheck/edit/magnet/rebuild interleaved with filesystem mutations) executed in one long-lived process without resets; after every step the observable is compared with the same step performed by a forked copy of a never-used interpreter (cross-validated against real fresh subprocesses) ; mtime-preserving rewrites and flips, restore, sparse 17 MB file with automatic piece length, varying piece lengths, class-based creators"
 RULE = ("Cases: sequences of 3..25 steps over one sandbox: create v1/v2/hybrid of the payload directory or of one file in it (library and "
         "CLI), add / delete / grow / shrink / rewrite a file under the payload, edit, recheck (root or parent), rebuild, magnet; the history "
         "process keeps all interpreter state between steps. Oracle per torrentfile step: the same operation on the same filesystem state in "
